@@ -28,7 +28,7 @@ def plan(tier, seed):
                   "fault: probes after an abort": 5000000}
     else:
         nitems = N_TABLES + FAULT_CLASSES4 * FAULT_SLICES
-        shards = [dict(bin=("opt", "c12"), shard=i, args=["--mode", "item", "--slices", FAULT_SLICES, "--points", 6,
+        shards = [dict(bin=("opt", "c12"), shard=i, args=["--mode", "item", "--slices", FAULT_SLICES, "--points", 8,
                                                           "--inserts", 1000000, "--fsamples", 400000])
                   for i in range(nitems)]
         # heavy items (4-man tables) first so that the tail of the schedule is short
